@@ -354,6 +354,21 @@ def _tie_a_one(script):
         res[m.group(1)] = [a.strip() for a in m.group(2).replace('\n', ' ').split(',') if a.strip()]
     for m in re.finditer(r"'([^']+)' does not depend on any axioms", out):
         res[m.group(1)] = []
+    # any error message inside a generated declaration un-discharges it (Lean recovers from some errors and still
+    # reports axioms): an error inside a theorem fails that theorem, an error inside a definition fails every theorem
+    starts = []
+    for ln, line in enumerate(p.stdout.splitlines(), 1):
+        mm = re.match(r"(?:noncomputable )?(theorem|def)\s+(\S+)", line)
+        if mm:
+            starts.append((ln, mm.group(1), mm.group(2)))
+    for m in re.finditer(r":(\d+):\d+: error", out):
+        el = int(m.group(1))
+        owner = [x for x in starts if x[0] <= el]
+        if owner and owner[-1][1] == 'theorem' and owner[-1][2] in res:
+            res[owner[-1][2]] = None
+        else:
+            for t in res:
+                res[t] = None
     return res, st, out[-1500:]
 
 
@@ -367,6 +382,8 @@ SERIES_THEOREMS = {'series_sin_eq', 'series_sinh_eq', 'series_cos_eq', 'series_c
 
 PARSER_THEOREMS = {'parser_step_eq'}
 
+MISC_THEOREMS = {'misc_mvarray_folds_eq', 'misc_blademap_eq', 'misc_frame_eq'}
+
 TRANSLATORS = [   # (script, theorems it generates (None = everything else), modules its output imports)
     ('py2lean.py', None, ['Model', 'Proofs.Rev', 'Proofs.Invol']),
     ('mv2lean.py', MV_THEOREMS, ['Proofs.Conf2', 'Proofs.CgaObj', 'Proofs.Classify']),
@@ -378,6 +395,7 @@ TRANSLATORS = [   # (script, theorems it generates (None = everything else), mod
     ('numba2lean.py', NUMBA_THEOREMS, ['Model']),
     ('series2lean.py', SERIES_THEOREMS, ['Model']),
     ('parser2lean.py', PARSER_THEOREMS, ['Model']),
+    ('misc2lean.py', MISC_THEOREMS, ['Model', 'Proofs.BladeMapP', 'Proofs.Recip']),
 ]
 
 
